@@ -25,6 +25,7 @@ func runC21(w *World, r *Report) {
 	defer c21CachedTokenKeepsExpiry(w, r)
 	defer c21CacheHitRevocation(w, r)
 	defer c21FailedLookupNotCached(w, r)
+	defer c21CanonicalTokenText(w, r)
 
 	r.Rule("R-C21-1", "acceptance gates (path-sensitive edge cut): for each guard g in {Decrypt error nil, not expired, not revoked, revocation lookup answered} no consistent path of Unwrap / Validate reaches a success return when g's edges are removed", 6)
 	r.Rule("R-C21-2", "Session.Authenticate: the authenticated-by-cache assignment is unreachable once the edges {cached token not expired, cached value is not a full token, cached token has no expiry} are removed", 1)
@@ -656,4 +657,19 @@ func c21CachedTokenKeepsExpiry(w *World, r *Report) {
 	if n == 0 {
 		r.Anchor("R-C21-5", "caches.Add(caches.TokenCache, …, *tokens.Token) in Session.Authenticate")
 	}
+}
+
+// c21CanonicalTokenText: R-C21-8. A native token is hex text; hex.DecodeString
+// accepts upper-case digits, so a token with any a-f digit changed to upper
+// case decodes to the issued token's bytes. "Honoured exactly" is about the
+// string: only the spelling New() produces is the token.
+func c21CanonicalTokenText(w *World, r *Report) {
+	r.Rule("R-C21-8", "a token string is decoded only from its canonical form: in package tokens every successful return after hex.DecodeString lies behind the true edge of hex.EncodeToString(decoded bytes) == the text that was decoded", 1)
+
+	tp := w.pkg("internal/language/tokens")
+	if tp == nil {
+		return
+	}
+
+	canonicalText(w, r, "R-C21-8", "encoding/hex.DecodeString", "encoding/hex.EncodeToString", w.srcFuncs(tp))
 }
